@@ -15,52 +15,7 @@ def run(ctx):
 
     rule_sticky_scratch(ctx, mir, idx)
 
-    # ------------------------------------------------------------------ R06.3
-    r = ctx.rule("R06.3", "stale hint flag: Dispatcher.got_flags_from_hint becomes true only when the hint switches the parser to the lexer; it is cleared when consumed and on the aux-info path", "E-MIR", floor=3)
-    ws = [(f2, bi, st) for f2, bi, st in mir.field_writes("Dispatcher", "got_flags_from_hint") if not mir.is_test_fn(f2)]
-    seen = {}
-    for f2, bi, st in ws:
-        v = f2.describe_operand(st["rv"]["o"]) if st["rv"]["k"] == "use" else st["rv"]["k"]
-        seen.setdefault(f2.key, []).append(v)
-    r.analysed["writers"] = seen
-    want = {"Dispatcher::apply_capture_flags_from_hint_and_get_next_parser_directive", "Dispatcher::handle_tag[LexemeSink]", "Dispatcher::handle_start_tag_hint[TagHintSink]"}
-    r.inst("writers", sample=seen)
-    if set(seen) != want:
-        r.violate("writers", f"got_flags_from_hint is written in {sorted(seen)}, expected {sorted(want)}", None)
-    for k, vs in seen.items():
-        for v in vs:
-            if k.endswith("apply_capture_flags_from_hint_and_get_next_parser_directive"):
-                r.inst("apply|value", sample={"value": v})
-                # must be derived from the directive (matches!(directive, Lex)), never the constant true
-                if v.startswith("const true"):
-                    r.violate("apply|value", "got_flags_from_hint is set to true unconditionally after a hint: a hint that keeps the scanner in scan mode would leave a stale flag and the next lexed tag would skip selector matching", None)
-            else:
-                r.inst(k + "|clear")
-                if not v.startswith("const false"):
-                    r.violate(k + "|clear", f"{k} assigns got_flags_from_hint = {v}, expected false", None)
-    ap = mir.fn("Dispatcher::apply_capture_flags_from_hint_and_get_next_parser_directive")
-    # the stored value depends on the discriminant of the directive computed in the same function
-    wr = [(bi, st) for f2, bi, st in mir.field_writes("Dispatcher", "got_flags_from_hint") if f2 is ap]
-    gd = [bi for bi, t in ap.calls(r"get_next_parser_directive$")]
-    r.inst("apply|depends-on-directive")
-    if not gd or not wr or not all(ap.dominates(gd[0], bi) for bi, _ in wr):
-        r.violate("apply|depends-on-directive", "got_flags_from_hint is not computed from the parser directive chosen for this hint", ap.loc())
-    else:
-        sws = [bi for bi, b in enumerate(ap.blocks) if b["term"]["k"] == "switch" and "directive" in ap.describe_operand(b["term"]["d"])]
-        if not sws:
-            r.violate("apply|depends-on-directive", "no branch on the directive before got_flags_from_hint is stored", ap.loc())
-    ht = mir.fn("Dispatcher::handle_tag[LexemeSink]")
-    r.inst("handle_tag|consume")
-    sw = [bi for bi, b in enumerate(ht.blocks) if b["term"]["k"] == "switch" and ht.describe_operand(b["term"]["d"]).endswith("got_flags_from_hint")]
-    wr = [bi for f2, bi, st in mir.field_writes("Dispatcher", "got_flags_from_hint") if f2 is ht]
-    adj = [bi for bi, t in ht.calls(r"adjust_capture_flags_for_tag_lexeme$")]
-    if len(sw) != 1 or len(wr) != 1 or len(adj) != 1:
-        r.violate("handle_tag|consume", "handle_tag: expected one test of got_flags_from_hint, one clearing write and one adjust_capture_flags_for_tag_lexeme call", ht.loc())
-    else:
-        false_t = [x[1] for x in ht.blocks[sw[0]]["term"]["ts"] if x[0] == 0][0]
-        true_t = ht.blocks[sw[0]]["term"]["else"]
-        if not ht.dominates(true_t, wr[0]) or not ht.dominates(false_t, adj[0]):
-            r.violate("handle_tag|consume", "handle_tag must clear the flag when it is set and run selector matching (adjust_capture_flags_for_tag_lexeme) when it is not", ht.loc())
+    rule_hint_flag(ctx, mir)
 
     # ------------------------------------------------------------------ R06.4
     r = ctx.rule("R06.4", "tree-builder feedback is requested exactly once per tag: only Lexer::try_get_tree_builder_feedback (under FeedbackDirective::None) and TagScanner::try_apply_tree_builder_feedback call the simulator; a pending text-type change travels as ApplyUnhandledFeedback, otherwise Skip", "E-MIR", floor=3)
@@ -244,4 +199,54 @@ def rule_bookmark(ctx, mir, rid="R06.1"):
             bf = EXC[name].split(".", 1)[1]
             if bf not in fields or bf not in src or bf not in restore:
                 r.violate("common." + name, f"state field `{name}` exists in both Lexer and TagScanner but StateMachineBookmark no longer carries it ({bf} captured: {bf in src}, restored: {bf in restore}): the value the tag scanner established (e.g. CDATA permission after <svg>/<math>, text type, last start tag) is lost when the parser switches to the lexer for a matched tag", cf.loc())
+
+
+
+def rule_hint_flag(ctx, mir, rid="R06.3"):
+    # ------------------------------------------------------------------ R06.3
+    r = ctx.rule(rid, "stale hint flag: Dispatcher.got_flags_from_hint becomes true only when the hint switches the parser to the lexer; it is cleared when consumed and on the aux-info path", "E-MIR", floor=3)
+    ws = [(f2, bi, st) for f2, bi, st in mir.field_writes("Dispatcher", "got_flags_from_hint") if not mir.is_test_fn(f2)]
+    seen = {}
+    for f2, bi, st in ws:
+        v = f2.describe_operand(st["rv"]["o"]) if st["rv"]["k"] == "use" else st["rv"]["k"]
+        seen.setdefault(f2.key, []).append(v)
+    r.analysed["writers"] = seen
+    want = {"Dispatcher::apply_capture_flags_from_hint_and_get_next_parser_directive", "Dispatcher::handle_tag[LexemeSink]", "Dispatcher::handle_start_tag_hint[TagHintSink]"}
+    r.inst("writers", sample=seen)
+    if set(seen) != want:
+        r.violate("writers", f"got_flags_from_hint is written in {sorted(seen)}, expected {sorted(want)}", None)
+    for k, vs in seen.items():
+        for v in vs:
+            if k.endswith("apply_capture_flags_from_hint_and_get_next_parser_directive"):
+                r.inst("apply|value", sample={"value": v})
+                # must be derived from the directive (matches!(directive, Lex)), never the constant true
+                if v.startswith("const true"):
+                    r.violate("apply|value", "got_flags_from_hint is set to true unconditionally after a hint: a hint that keeps the scanner in scan mode would leave a stale flag and the next lexed tag would skip selector matching", None)
+            else:
+                r.inst(k + "|clear")
+                if not v.startswith("const false"):
+                    r.violate(k + "|clear", f"{k} assigns got_flags_from_hint = {v}, expected false", None)
+    ap = mir.fn("Dispatcher::apply_capture_flags_from_hint_and_get_next_parser_directive")
+    # the stored value depends on the discriminant of the directive computed in the same function
+    wr = [(bi, st) for f2, bi, st in mir.field_writes("Dispatcher", "got_flags_from_hint") if f2 is ap]
+    gd = [bi for bi, t in ap.calls(r"get_next_parser_directive$")]
+    r.inst("apply|depends-on-directive")
+    if not gd or not wr or not all(ap.dominates(gd[0], bi) for bi, _ in wr):
+        r.violate("apply|depends-on-directive", "got_flags_from_hint is not computed from the parser directive chosen for this hint", ap.loc())
+    else:
+        sws = [bi for bi, b in enumerate(ap.blocks) if b["term"]["k"] == "switch" and "directive" in ap.describe_operand(b["term"]["d"])]
+        if not sws:
+            r.violate("apply|depends-on-directive", "no branch on the directive before got_flags_from_hint is stored", ap.loc())
+    ht = mir.fn("Dispatcher::handle_tag[LexemeSink]")
+    r.inst("handle_tag|consume")
+    sw = [bi for bi, b in enumerate(ht.blocks) if b["term"]["k"] == "switch" and ht.describe_operand(b["term"]["d"]).endswith("got_flags_from_hint")]
+    wr = [bi for f2, bi, st in mir.field_writes("Dispatcher", "got_flags_from_hint") if f2 is ht]
+    adj = [bi for bi, t in ht.calls(r"adjust_capture_flags_for_tag_lexeme$")]
+    if len(sw) != 1 or len(wr) != 1 or len(adj) != 1:
+        r.violate("handle_tag|consume", "handle_tag: expected one test of got_flags_from_hint, one clearing write and one adjust_capture_flags_for_tag_lexeme call", ht.loc())
+    else:
+        false_t = [x[1] for x in ht.blocks[sw[0]]["term"]["ts"] if x[0] == 0][0]
+        true_t = ht.blocks[sw[0]]["term"]["else"]
+        if not ht.dominates(true_t, wr[0]) or not ht.dominates(false_t, adj[0]):
+            r.violate("handle_tag|consume", "handle_tag must clear the flag when it is set and run selector matching (adjust_capture_flags_for_tag_lexeme) when it is not", ht.loc())
 
